@@ -451,6 +451,30 @@ partial def loopMT (lines : Array String) (i : Nat) (m : MT) : IO Nat := do
         | none => IO.println "bad-op"; loopMT lines (i + 1) m
   else return i
 
+/-! ## stop race: `~scheduler()` while the worker is between its stop check and its wait (thread mode) -/
+
+/-- the schedule the harness forces; steps that are not enabled are skipped -/
+def stopRaceSchedule : List Stop.Act :=
+  [Stop.Act.wLock,                                        -- woken by the new sleep, passes the stop check (stalls)
+   Stop.Act.sFlag, Stop.Act.sLock, Stop.Act.sNotify, Stop.Act.sUnlock,   -- ~scheduler in another thread
+   Stop.Act.wPollWait,                                    -- released: nothing due, wait_until(tp)
+   Stop.Act.sLock, Stop.Act.sNotify, Stop.Act.sUnlock,    -- the callback, if it had to wait for the mutex
+   Stop.Act.wLock]
+
+partial def loopRace (lines : Array String) (i : Nat) (tp : Nat) : IO Nat := do
+  if h : i < lines.size then
+    let ws := words lines[i]
+    match ws with
+    | ["end"] => IO.println "end"; return i + 1
+    | ["go"] =>
+        let s := Stop.run Stop.step {} stopRaceSchedule
+        let lost := s.sp == Stop.SPc.done && s.w == Stop.WPc.waiting
+        IO.println s!"go destroyed={boolStr (!lost)} ; sleep#0=canceled@{if lost then tp else 0}"
+        loopRace lines (i + 1) tp
+    | [] => loopRace lines (i + 1) tp
+    | _ => IO.println "bad-op"; loopRace lines (i + 1) tp
+  else return i
+
 partial def loop (lines : Array String) (i : Nat) : IO Unit := do
   if h : i < lines.size then
     let ws := words lines[i]
@@ -464,6 +488,10 @@ partial def loop (lines : Array String) (i : Nat) : IO Unit := do
         -- the worker starts and parks itself on an empty vector
         let m0 : MT := {}
         let j ← loopMT lines (i + 1) (settle m0 4)
+        loop lines j
+    | "case" :: id :: "stoprace" :: rest =>
+        IO.println s!"case {id}"
+        let j ← loopRace lines (i + 1) ((rest.head? >>= String.toNat?).getD 50)
         loop lines j
     | "case" :: id :: "run" :: rest =>
         IO.println s!"case {id}"
